@@ -632,6 +632,134 @@ impl Global {
         }
     }
 
+    /// Coverage-guided stage: run a prebuilt libFuzzer target (built by ./check from the current
+    /// tree) in `procs` parallel processes for `total_runs` executions from the committed seed corpus.
+    /// A crash artifact is decoded with the shared byte decoder and re-run under the framework, which
+    /// writes the usual JSON replay; `as_stage` names the proptest stage that accepts that Case type.
+    pub fn fuzz_stage<C: CaseT>(
+        &mut self,
+        target: &str,
+        only: Option<u8>,
+        total_runs: u64,
+        as_stage: &str,
+        decode: &(dyn Fn(&[u8]) -> C + Sync),
+        check: &(dyn Fn(&C, &mut Ctx) -> Result<(), Failure> + Sync),
+    ) {
+        if self.is_replay() || !self.violations.is_empty() {
+            return;
+        }
+        self.exhaustive_all = false;
+        let t0 = Instant::now();
+        let bin = format!("{}/harness/fuzz/target/x86_64-unknown-linux-gnu/release/{}", self.verif_dir, target);
+        if !std::path::Path::new(&bin).exists() {
+            eprintln!("INCONCLUSIVE fuzz target {} is not built (run ./check, which builds it for the thorough tier)", bin);
+            std::process::exit(2);
+        }
+        let procs = 8u64;
+        let base = format!("{}/harness/fuzz/run-{}-{}", self.verif_dir, std::process::id(), target);
+        let _ = std::fs::remove_dir_all(&base);
+        let seed_dir = format!("{}/corpus/{}", self.verif_dir, target);
+        let mut children = vec![];
+        for i in 0..procs {
+            let cdir = format!("{}/c{}", base, i);
+            let adir = format!("{}/a{}/", base, i);
+            std::fs::create_dir_all(&cdir).ok();
+            std::fs::create_dir_all(&adir).ok();
+            if let Ok(rd) = std::fs::read_dir(&seed_dir) {
+                for e in rd.flatten() {
+                    let _ = std::fs::copy(e.path(), format!("{}/{}", cdir, e.file_name().to_string_lossy()));
+                }
+            }
+            let mut cmd = std::process::Command::new(&bin);
+            cmd.arg(&cdir)
+                .arg(format!("-runs={}", total_runs / procs))
+                .arg(format!("-seed={}", (self.seed.wrapping_mul(procs + 1).wrapping_add(i) % 0x7fff_fff0) + 1))
+                .arg("-max_len=4096")
+                .arg("-len_control=0")
+                .arg("-print_final_stats=1")
+                // ru_maxrss is inherited across exec on Linux: the parent's peak would trip the default limit
+                .arg("-rss_limit_mb=0")
+                .arg("-malloc_limit_mb=2048")
+                .arg(format!("-artifact_prefix={}", adir))
+                .stdout(std::process::Stdio::null())
+                .stderr(std::process::Stdio::piped());
+            if let Some(o) = only {
+                cmd.env("TACHECK_FUZZ_ONLY", o.to_string());
+            }
+            match cmd.spawn() {
+                Ok(ch) => children.push((i, ch)),
+                Err(e) => {
+                    eprintln!("INCONCLUSIVE cannot start fuzz target: {}", e);
+                    std::process::exit(2);
+                }
+            }
+        }
+        let mut executed = 0u64;
+        let mut new_units = 0u64;
+        let mut crashed = false;
+        for (_, ch) in children {
+            let out = match ch.wait_with_output() {
+                Ok(o) => o,
+                Err(e) => {
+                    eprintln!("INCONCLUSIVE fuzz process: {}", e);
+                    std::process::exit(2);
+                }
+            };
+            let err = String::from_utf8_lossy(&out.stderr);
+            for line in err.lines() {
+                if let Some(v) = line.strip_prefix("stat::number_of_executed_units:") {
+                    executed += v.trim().parse::<u64>().unwrap_or(0);
+                }
+                if let Some(v) = line.strip_prefix("stat::new_units_added:") {
+                    new_units += v.trim().parse::<u64>().unwrap_or(0);
+                }
+            }
+            if !out.status.success() {
+                crashed = true;
+                let tail: Vec<&str> = err.lines().rev().take(25).collect();
+                eprintln!("--- fuzz process ended with {:?}; last lines of its stderr:", out.status);
+                for l in tail.iter().rev() {
+                    eprintln!("    {}", l);
+                }
+            }
+        }
+        // artifacts → cases → framework
+        let mut artifacts: Vec<std::path::PathBuf> = vec![];
+        for i in 0..procs {
+            if let Ok(rd) = std::fs::read_dir(format!("{}/a{}", base, i)) {
+                for e in rd.flatten() {
+                    artifacts.push(e.path());
+                }
+            }
+        }
+        artifacts.sort();
+        let mut reproduced = false;
+        for a in &artifacts {
+            if let Ok(bytes) = std::fs::read(a) {
+                let body = match only {
+                    Some(_) if !bytes.is_empty() => &bytes[1..],
+                    _ => &bytes[..],
+                };
+                let case = decode(body);
+                if let Err(f) = self.run_one(as_stage, &case, check) {
+                    let dir = format!("{}/replays/{}", self.verif_dir, self.id);
+                    let _ = std::fs::create_dir_all(&dir);
+                    let _ = std::fs::write(format!("{}/found-fuzz-{:016x}.bin", dir, fnv(&format!("{:?}", bytes))), &bytes);
+                    self.record_violation(as_stage, &case, f);
+                    reproduced = true;
+                    break;
+                }
+            }
+        }
+        let _ = std::fs::remove_dir_all(&base);
+        if crashed && !reproduced {
+            eprintln!("INCONCLUSIVE fuzz target {} stopped abnormally ({} artifact(s)) but no artifact reproduces under the harness", target, artifacts.len());
+            std::process::exit(2);
+        }
+        self.stats.evaluations += executed;
+        self.stage_info.push(json!({"stage": format!("fuzz:{}", target), "generator": "libFuzzer (coverage-guided, 8 processes)", "cases": executed, "new_corpus_units": new_units, "wall_s": t0.elapsed().as_secs_f64()}));
+    }
+
     /// Replay all committed/previous replay files of this property (regression tier).
     pub fn regression_files(&self) -> Vec<String> {
         let dir = format!("{}/replays/{}", self.verif_dir, self.id);
